@@ -318,3 +318,110 @@ def analyse_cached(facts, entries):
     if k not in _memo:
         _memo[k] = analyse(facts, entries)
     return _memo[k]
+
+
+# ------------------------------------------------------------------ thorough tier: every call sequence up to a length, against a reference model
+def exhaustive(facts, entries, maxlen=4, all_protocols_len=2):
+    """Every sequence over {set_claim(K), set_claim(nbf), set_claim(exp), set_claim(other), acknowledge, set_footer, build} up to `maxlen`
+    calls (for one protocol; up to `all_protocols_len` for the other seven), each followed by a build, compared with the reference
+    behaviour the properties state:
+        keys supplied twice D (a key counts when set_claim saw it before; the acknowledgement may or may not count as supplying exp),
+        build: D non-empty -> Err(DuplicateTopLevelPayloadClaim(k)), k in D, nothing built;  otherwise remove_claim("exp") exactly when
+        acknowledged, then one generic build whose result is returned; building changes nothing.
+    Returns (number of sequences, problems, why undecided)."""
+    D = Driver(facts)
+    okr, miss = D.ready()
+    if not okr:
+        return 0, [], "PasetoBuilder methods not found: %s" % miss
+    prods = S.select(entries, "prelude", "producer")
+    kk = lambda st: [A.Ptr(st.new_cell(A.Sym("key")))]
+    none = lambda st: []
+    foot = lambda st: [A.Struct("crate::core::footer::Footer", None, {"0": A.Seq("F", A.Aff.sym("len(F)"), kind="str")})]
+    probs = []
+    nseq = 0
+    for pi, e in enumerate(prods):
+        limit = maxlen if pi == 0 else all_protocols_len
+        alphabet = [("set_claim(K)", D.set_claim, D.claim("K"), "K"), ("set_claim(nbf)", D.set_claim, D.claim("nbf"), "nbf"), ("set_claim(exp)", D.set_claim, D.claim("exp"), "exp"),
+                    ("set_claim(other)", D.set_claim, D.claim("other"), "other"), ("acknowledge", D.ack, none, None), ("set_footer", D.set_footer, foot, None), ("build", e.body, kk, None)]
+
+        def check_build(name, sts, seen, dups, maybe, ack):
+            """run build on clones of the states and compare with the reference"""
+            r = D.call(sts, e.body, kk)
+            if r is None:
+                return D.why
+            for (s0, _c0), (s2, _c2, val) in zip(sts, r) if len(r) == len(sts) else []:
+                pass
+            for s2, _c2, val in r:
+                evs = s2.events[s2.facts.get("pv_mark", 0):]
+                res = _err_payload(D.I, s2, val)
+                rms = [x[1] for x in evs if x[0] == "gb.remove_claim"]
+                blds = [x[1] for x in evs if x[0] == "gb.build"]
+                if [x for x in evs if x[0] in ("gb.set_claim", "gb.other")]:
+                    probs.append("%s: build changes the generic builder's claims / footer" % name)
+                is_dup_err = res[0] == "Err" and res[1] == "DuplicateTopLevelPayloadClaim"
+                if dups:
+                    allowed = set("'%s'" % k for k in dups | maybe)
+                    if not (is_dup_err and res[2] in allowed and not blds):
+                        probs.append("%s: keys %s were supplied twice but build gives %s (built: %s)" % (name, sorted(dups), res, bool(blds)))
+                    continue
+                if is_dup_err and res[2] in set("'%s'" % k for k in maybe) and not blds:
+                    continue        # exp set once after the acknowledgement: refused by the current code, no token - nothing stated
+                if len(blds) != 1 or blds[0] != ["gb", "key"] or not (res[0] == "value" and res[1] == "generic_result"):
+                    probs.append("%s: no key was supplied twice but build gives %s (generic builds: %s)" % (name, res[:3], blds))
+                    continue
+                want = [["'exp'"]] if ack else []
+                if rms != want:
+                    probs.append("%s: remove_claim calls %s, expected %s" % (name, rms, want))
+            return None
+
+        def mark(sts):
+            for s, _c in sts:
+                s.facts["pv_mark"] = len(s.events)
+
+        def rec(name, sts, depth, seen, dups, maybe, ack):
+            nonlocal nseq
+            nseq += 1
+            clones = [(s.clone(), c) for s, c in sts]
+            mark(clones)
+            why = check_build(name or "default()", clones, seen, dups, maybe, ack)
+            if why:
+                return why
+            if depth >= limit or len(probs) > 40:
+                return None
+            for label, body, args, key in alphabet:
+                nxt = [(s.clone(), c) for s, c in sts]
+                mark(nxt)
+                r = D.call(nxt, body, args)
+                if r is None:
+                    return D.why
+                seen2, dups2, maybe2, ack2 = set(seen), set(dups), set(maybe), ack
+                if key is not None:
+                    if key in seen2:
+                        dups2.add(key)
+                    elif key == "exp" and ack:
+                        maybe2.add("exp")
+                    seen2.add(key)
+                if label == "acknowledge":
+                    ack2 = True
+                if label == "build":
+                    continue        # its outcome was just compared by check_build; what follows a build is explored from the states it leaves
+                why = rec((name + "; " if name else "") + label, [(s, c) for s, c, _v in r], depth + 1, seen2, dups2, maybe2, ack2)
+                if why:
+                    return why
+            # a build in the middle: continue from the states the build leaves behind (building must not change what later builds do)
+            if depth + 1 < limit:
+                nxt = [(s.clone(), c) for s, c in sts]
+                r = D.call(nxt, e.body, kk)
+                if r is None:
+                    return D.why
+                why = rec((name + "; " if name else "") + "build", [(s, c) for s, c, _v in r], depth + 1, seen, dups, maybe, ack)
+                if why:
+                    return why
+            return None
+        sts = D.start()
+        if sts is None:
+            return nseq, probs, D.why
+        why = rec("", sts, 0, set(), set(), set(), False)
+        if why:
+            return nseq, probs, why
+    return nseq, sorted(set(probs)), None
